@@ -22,6 +22,20 @@ var _ = Register("C06", func() interface{} { return new(ParseCase) }, func(c int
 
 func genC06(t *rapid.T) *ParseCase {
 	c := genParseCase(t, c06Decl, c06Argv)
+	// a required option without short or long name (it has an ini-name only, so
+	// only the INI file, the environment or a default can supply it)
+	if len(c.D.Root.G.Groups) > 0 && rapid.IntRange(0, 14).Draw(t, "namelessRequired") == 0 {
+		o := Opt{ID: "nameless", Field: "Nameless", Kind: KString, IniName: "nameless-token", Required: "yes"}
+		if rapid.Bool().Draw(t, "namelessDefault") {
+			o.Defaults = []string{"d"}
+		}
+		g0 := &c.D.Root.G.Groups[0]
+		g0.Options = append(g0.Options, o)
+		// (keep options added with AddOption last in their group)
+		for i := len(g0.Options) - 1; i > 0 && g0.Options[i-1].ViaAdd; i-- {
+			g0.Options[i-1], g0.Options[i] = g0.Options[i], g0.Options[i-1]
+		}
+	}
 	// supply some options through the environment
 	c.Env = genEnv(t, c.D, 0)
 	// ... and some through an INI file read before the command line
